@@ -1,4 +1,5 @@
 import JugModel.Props.C13
+import JugModel.Props.WorkerBridge
 #print axioms Jug.C13.crash_always_enabled
 #print axioms Jug.C13.crash_preserves
 #print axioms Jug.C13.crash_keeps_results_correct
@@ -7,3 +8,4 @@ import JugModel.Props.C13
 #print axioms Jug.C13.recovery
 #print axioms Jug.C13.recovery_no_rerun
 #print axioms Jug.C13.recovered_task_can_be_locked
+#print axioms Jug.WorkerBridge.worker_conforms
